@@ -6,6 +6,7 @@ import QV.Sexp
 import QV.Driver.Color
 import QV.Driver.Layout
 import QV.Driver.Names
+import QV.Driver.FormTree
 
 open QV
 
@@ -28,6 +29,8 @@ def dispatch (req : Sexp) : Sexp :=
   | .list (.atom "spec-hbox" :: args) => Driver.Layout.handleSpec "spec-hbox" args
   | .list (.atom "names" :: args) => Driver.Names.handleModel args
   | .list (.atom "spec-names" :: args) => Driver.Names.handleSpec args
+  | .list (.atom "formtree" :: args) => Driver.FormTree.handleModel args
+  | .list (.atom "spec-formtree" :: args) => Driver.FormTree.handleSpec args
   | _ => .list [.atom "bad-request"]
 
 partial def loop (h : IO.FS.Stream) (out : IO.FS.Stream) : IO Unit := do
